@@ -35,6 +35,9 @@ def _is_btree(callee):
     return "btree" in path or "BTreeMap" in path or "BTreeMap" in (callee.get("impl_self") or "")
 
 
+_CRATE_ADTS = set()
+
+
 def direct_effects(body):
     eff = set()
     for bi, blk in enumerate(body.blocks):
@@ -51,7 +54,11 @@ def direct_effects(body):
                     if p["k"] == "deref":
                         seen_deref = True
                     elif p["k"] == "field" and seen_deref and p.get("adt"):
-                        eff.add(("field", p["adt"], p["name"]))
+                        # a borrowed field that is itself a crate struct (`&mut self.counters`) is written field by field by
+                        # whoever receives the borrow - that shows in the callee's own summary
+                        last = [q for q in rv["place"]["proj"] if q["k"] == "field"][-1]
+                        if (last.get("ty") or "").replace("&mut ", "").lstrip("&") not in _CRATE_ADTS:
+                            eff.add(("field", p["adt"], p["name"]))
                         break
             proj = s["place"]["proj"]
             if any(p["k"] == "deref" for p in proj):
@@ -92,6 +99,8 @@ class Effects:
     def __init__(self, facts):
         self.facts = facts
         self.cg = call_graph(facts)
+        _CRATE_ADTS.clear()
+        _CRATE_ADTS.update(facts.adts)
         self.direct = {n: direct_effects(b) for n, b in facts.bodies.items() if b.kind != "promoted"}
         self.trans = {}
         # fixpoint over the call graph (tiny)
